@@ -150,7 +150,7 @@ register("C06",
          "the rendering of the substituted tree (C06_text_expansion); names that are substrings of one another never interfere (C06_names); ratio = n / NULLIF(d, 0) is NULL on a zero / NULL denominator, fill_nulls_with replaces a NULL result; tokenisation is lossless. "
          "Model/Formula.v is hand-written and tied to the code at TEXT level: `build`, evaluated in Coq on the real leaf SQL and the real dependency sets, must equal the string SQLGenerator._build_metric_sql returns for every generated composite; "
          "the property oracle evaluates each composite's formula (recursively, in Coq) over the implementation's own component columns of the same rows; unrelated models/metrics are added and must change nothing; twin composites of two models are selected together. "
-         "Known-finding classes K1 (graph-level metric spelled like a measure), K2 (same measure name on two models in one formula), K3 (inline-aggregate metric mentioning a column that is also a metric name). Regenerated on every run: what _wrap_with_fill_nulls returns for scripted fill values (numbers, booleans, strings with quotes): C06_fill_table, and C06_fill_quotes_doubled (any text value is quoted with its quotes doubled).",
+         "Known-finding classes K2 (same measure name on two models in one formula), K3 (inline-aggregate metric mentioning a column that is also a metric name). Regenerated on every run: what _wrap_with_fill_nulls returns for scripted fill values (numbers, booleans, strings with quotes): C06_fill_table, and C06_fill_quotes_doubled (any text value is quoted with its quotes doubled).",
          "Trusted: Coq kernel; Model/Formula.v hand-written (tied by the text comparison and the value oracle); sqlglot's column extraction gives the dependency set, DuckDB parses/evaluates the expanded text; rows whose reference value involves x/0 (IEEE inf/nan in DuckDB) are outside the fragment. No axioms.",
          "Coq proof (token-level substitution lemma, tree induction) + text-level model/implementation correspondence; formula-over-own-components oracle and metamorphic runs", "DESIGN.md section 6/C06")
 
